@@ -2011,7 +2011,7 @@ Error Assembler::_emit(InstId inst_id, const Operand_& o0, const Operand_& o1, c
           goto InvalidPhysId;
 
         uint64_t cond = o2.as<Imm>().value_as<uint64_t>();
-        if (cond - 2u > 0xEu)
+        if (cond - 2u >= 0xEu)
           goto InvalidImmediate;
 
         opcode.reset(op_data.opcode);
